@@ -84,14 +84,15 @@ func (g *G) ulimits() M {
 	for i, n := range names {
 		switch (i + g.R.Intn(2)) % 3 {
 		case 0:
-			u[n] = g.n(1, 65535)
+			// the single form: a positive limit, 0, or -1 (unlimited)
+			u[n] = pick(g, g.n(1, 65535), g.n(1, 65535), -1, 0)
 		case 1:
 			soft := g.n(1, 20000)
 			l := M{"soft": soft, "hard": soft + g.n(0, 20000)}
 			g.ext(l, "service.ulimits")
 			u[n] = l
 		default:
-			u[n] = M{"soft": 0, "hard": pick(g, 0, 100, -1)}
+			u[n] = M{"soft": pick(g, 0, 0, -1), "hard": pick(g, 0, 100, -1)}
 		}
 	}
 	return u
@@ -695,7 +696,7 @@ func (g *G) serviceNetworks(info *svcInfo) any {
 			c["driver_opts"] = g.strMap("nopt", 1, 2)
 		}
 		if g.want("service.networks.priority") {
-			c["priority"] = g.n(1, 1000)
+			c["priority"] = pick(g, g.n(1, 1000), g.n(1, 1000), -5)
 		}
 		g.ext(c, "service.networks")
 		if len(c) == 0 {
